@@ -4,7 +4,7 @@
    interleaving of them and the pool's counter; that the Go code has no OTHER path is established only by
    running the monitor on the lifecycle traces of real executions. *)
 From Coq Require Import ZArith NArith List Bool.
-From GoCoap Require Import Pool.Model Pool.Spec Pool.Proofs Pool.Paths Pool.Bounded Pool.BoundedProofs.
+From GoCoap Require Import Pool.Model Pool.Spec Pool.Proofs Pool.Writer Pool.Paths Pool.Bounded Pool.BoundedProofs.
 Import ListNotations.
 Open Scope Z_scope.
 
@@ -120,8 +120,42 @@ Theorem C12_refused_release_safe : forall a o b,
 Proof. exact refused_release_safe. Qed.
 Print Assumptions C12_refused_release_safe.
 
-(* in particular any number of library paths (lib_path: the thirteen path shapes above, each on distinct objects)
-   running concurrently satisfy the property as stated *)
+(* ---- the response writer's slot: code that acquires messages and installs them (SetMessage), swaps them in (Swap),
+   releases them by hand, lends them to a handler or lets them go.  ANY such program that keeps the ownership
+   discipline (wdisc: every operation applies to a message the code has - acquired or swapped out and not yet
+   released, installed or given away; nothing is installed after the writer's message was given back) produces an
+   accepted trace, hence satisfies the property as stated ---- *)
+Theorem C12_writer_discipline_safe : forall w m ops, w <> m ->
+  wdisc w false [m] [w; m] ops = true -> accepted (wtrace w ops) /\ c12_class (wtrace w ops) = 0%N.
+Proof. exact wdisc_safe. Qed.
+Print Assumptions C12_writer_discipline_safe.
+
+(* acceptance does not depend on the names of the objects *)
+Theorem C12_accepted_renaming : forall f t, (forall x y, In x (objs t) -> In y (objs t) -> f x = f y -> x = y) ->
+  (accepted t <-> accepted (map (ren f) t)).
+Proof. exact accepted_ren. Qed.
+Print Assumptions C12_accepted_renaming.
+
+(* the receive path with net/blockwise in the dispatch chain, EVERY return point of BlockWise.Handle as modelled
+   (forwarded, completed, next block asked / sent, the early and the late error returns with sendEntityIncomplete,
+   the failures of continueSendingMessage), with or without a copy of the sent request, a reassembly entry, a
+   confirmable write at the end, a stale Hijack flag: accepted on any seven pairwise distinct objects *)
+Theorem C12_path_bw_receive : forall k sr has wc stale env, NoDup env -> length env = 7%nat ->
+  accepted (path_bw_receive k sr has wc stale env).
+Proof. exact path_bw_receive_ok. Qed.
+Print Assumptions C12_path_bw_receive.
+
+(* ... and the variant that installs the next-block request in the writer right after acquiring it while the early
+   return "cannot restart blockwise response" still releases it by hand breaks the discipline and is rejected by
+   the monitor, whatever the objects are *)
+Theorem C12_bw_early_install_rejected : forall sr has wc env, NoDup env -> length env = 7%nat ->
+  wdisc 0 false [1] [0; 1] (bw_early_install_restart_ops sr has wc) = false /\
+  check (map (ren (env_f env)) (wtrace 0 (bw_early_install_restart_ops sr has wc))) <> 0%N.
+Proof. exact bw_early_install_restart_rejected. Qed.
+Print Assumptions C12_bw_early_install_rejected.
+
+(* in particular any number of library paths (lib_path: the path shapes above and every disciplined writer
+   program, each on distinct objects) running concurrently satisfy the property as stated *)
 Theorem C12_lib_paths_interleaved_safe : forall ps t,
   Forall lib_path ps -> pairwise_disjoint ps -> interleave ps t -> c12_class t = 0%N.
 Proof. exact lib_paths_interleaved_safe. Qed.
@@ -156,3 +190,14 @@ Proof.
   split; [|vm_compute; reflexivity].
   eexists. split; [apply interleave_concat|]. vm_compute. split; reflexivity.
 Qed.
+
+(* the error return "cannot restart blockwise response of request(POST) from first block" (ETag of a POST response
+   changed between two blocks) on the objects 10..16: the replaced writer message, the next-block request given
+   back by hand, the copy of the sent request, the 4.08, its private copy for the confirmable write, the received
+   block - each released exactly once; the early-install variant releases the next-block request (13) twice *)
+Example C12_instance_bw :
+  path_bw_receive (KErrLate true) true true true false [10; 11; 12; 13; 14; 15; 16] =
+    [Rel 13; Rec 13; Rel 12; Rec 12; Rel 10; Rec 10; Rel 16; Rec 16; Rel 14; Rec 14; Rel 11; Rec 11] /\
+  check (path_bw_receive (KErrLate true) true true true false [10; 11; 12; 13; 14; 15; 16]) = 0%N /\
+  check (map (ren (env_f [10; 11; 12; 13; 14; 15; 16])) (wtrace 0 (bw_early_install_restart_ops true true true))) = 1%N.
+Proof. vm_compute. repeat split. Qed.
